@@ -31,7 +31,7 @@ TIMEOUT = {"quick": 900, "thorough": 3600}
 def make_program(seed, idx, big=False):
     for attempt in range(50):
         rng = rng_for(seed, "c01-prog", idx, attempt)
-        desc = gen_program(rng, n_units=(3, 18 if big else 12))
+        desc = gen_program(rng, n_units=(3, 18 if big else 12), p_user_lp=0.1)
         if sane(desc):
             return desc, rng
     raise RuntimeError("no sane program")
